@@ -233,6 +233,44 @@ def search_pkg_dir(stp: int, tp: int, mtime: int, rebuild: bool, importable: boo
     return got == ('not-modified' if fresh else 'not-found')
 
 
+def real_pyc(keep_py: bool, off: int, py_off: int, legacy: bool) -> bool:
+    """
+    requires: -1 <= off <= 1 and -2 <= py_off <= 0
+    """
+    # REAL byte-code written by py_compile on a real directory, read by the unmodified PyFileSearcher (no stubs): the time a
+    # .pyc carries is the modification time of the source it was compiled from. `off` places the MIB source's time just
+    # below / at / above it; the .py itself may be gone (only byte-code shipped) or older than the MIB source.
+    off, py_off = (-1 if off < 0 else (1 if off > 0 else 0)), (-2 if py_off <= -2 else (-1 if py_off == -1 else 0))
+    keep_py, legacy = bool(keep_py), bool(legacy)
+    from harness import tok
+    with tok._untraced():
+        import importlib
+        import os
+        import py_compile
+        import shutil
+        import tempfile
+        importlib.reload(pyfile)
+        d = tempfile.mkdtemp(prefix='verif-x10-')
+        try:
+            src = os.path.join(d, 'M-MIB.py')
+            with open(src, 'w') as f:
+                f.write('x = 1\n')
+            t0 = 1500000000
+            os.utime(src, (t0, t0))
+            py_compile.compile(src, cfile=os.path.join(d, 'M-MIB' + pyfile.BYTECODE_SUFFIXES[0]), doraise=True)
+            if keep_py:
+                os.utime(src, (t0 + py_off, t0 + py_off))       # the source next to it is as old as the byte-code or older
+            else:
+                os.unlink(src)
+            got = _ask(pyfile.PyFileSearcher(d), 'M-MIB', t0 + off, False)
+        finally:
+            shutil.rmtree(d, ignore_errors=True)
+    fresh = off <= 0                                    # the byte-code is not older than the MIB source
+    if keep_py and py_off >= off:
+        fresh = True
+    return got == ('not-modified' if fresh else 'not-found')
+
+
 def import_bare(flags: str) -> bool:
     """
     requires: flags in ('-I', '-IS')
@@ -286,6 +324,9 @@ def conditions(prop, tier):
                     'time stamp from a pool; source mtime one second below / equal / above the deciding time; distractor entries; rebuild'),
         dict(name='C10.PyPackageSearcher.dir', fn='search_pkg_dir', fixed={}, timeout=t,
              bounds='package directory (delegation to PyFileSearcher) or unimportable package; .py absent/dir/file with unbounded mtime; rebuild'),
+        dict(name='C10.exec.PyFileSearcher.real-pyc', fn='real_pyc', fixed=dict(legacy=True), timeout=t,
+             bounds='REAL .pyc written by py_compile (real header layout of the running interpreter) on a real directory, source .py kept (same age / '
+                    'older) or removed, MIB source time one second below / equal / above the compiled time: unmodified PyFileSearcher, no stubs'),
         dict(name='C10.StubSearcher', fn='search_stub', fixed={}, timeout=t,
              bounds='requested name by symbolic index into a 5-name pool (incl. prefix and case variants); every subset as stub list; '
                     'rebuild and mtime symbolic'),
@@ -300,5 +341,5 @@ def selftests(prop):
             ('search_pkg_egg', dict(stc=0, magic_ok=True, tc=0, has_py=True, di=1, off=1, rebuild=False, other=False)),
             ('search_pkg_dir', dict(stp=2, tp=9, mtime=9, rebuild=False, importable=True)),
             ('search_pkg_dir', dict(stp=2, tp=9, mtime=9, rebuild=False, importable=False)),
-            ('import_bare', dict(flags='-IS')),
+            ('import_bare', dict(flags='-IS')), ('real_pyc', dict(keep_py=False, off=0, py_off=0, legacy=True)),
             ('search_stub', dict(ask=3, in0=True, in1=False, in2=False, in3=False, in4=False, mtime=0, rebuild=True))]
